@@ -10,171 +10,181 @@ use vh_lite::{read_cases, drive, drive_group, quiet_panics, Out};
 
 mod tc_left__par;
 mod tc_left__src1;
-mod tc_left__ren;
-mod tc_nonlin__to;
-mod tc_nonlin__strpar;
-mod mutual__gen;
-mod mutual__perm1;
-mod scc_chain__par;
-mod scc_chain__str;
-mod consts__pari;
-mod repeated__str;
-mod three_dyn__perm1;
-mod four_dyn__par;
-mod conds__src0;
-mod conds__perm2;
-mod count_up__pari;
-mod multi_head__perm1;
-mod facts__mrt;
-mod facts__srcpar;
-mod opt_cols__ser;
-mod opt_cols__src2;
-mod same_gen__ser;
-mod same_gen__permpar;
-mod two_inputs__par;
-mod two_inputs__src1;
-mod two_inputs__ren;
-mod ternary__ser;
-mod ternary__u64;
-mod bound_mix__permpar;
-mod join_chain__perm2;
-mod cond_simple_join__pari;
-mod zero_arity__pari;
-mod lag_right__topar;
-mod lag_left__ser;
-mod lag_three__to;
-mod lag_mid__permpar;
-mod lag_late_delta__topar;
-mod sp_dual__gen;
-mod sp_dual__perm1;
-mod sp_weighted__topar;
-mod set_reach__pari;
-mod set_reach__src2;
-mod bset__to;
-mod opt_lat__par;
-mod lat_two_keys__ser;
-mod lat_val_bound__ser;
-mod count_paths__run;
+mod tc_left__perm2;
+mod tc_nonlin__pari;
+mod tc_nonlin__u64;
+mod mutual__mrt;
+mod mutual__runpar;
+mod mutual__strpar;
+mod scc_chain__ren;
+mod consts__ser;
+mod repeated__ren;
+mod three_dyn__to;
+mod three_dyn__strpar;
+mod conds__mrt;
+mod conds__runpar;
+mod expr_args__pari;
+mod multi_head__pari;
+mod facts__par;
+mod facts__srcto;
+mod facts__permpar;
+mod opt_cols__mrt;
+mod opt_cols__runpar;
+mod same_gen__to;
+mod same_gen__strpar;
+mod two_inputs__topar;
+mod two_inputs__redecl;
+mod two_inputs__str;
+mod ternary__pari;
+mod bound_mix__ser;
+mod bound_mix__u64;
+mod join_chain__permpar;
+mod reach__par;
+mod self_join3__par;
+mod lag_right__perm2;
+mod lag_left__pari;
+mod lag_mid__ser;
+mod lag_mid__u64;
+mod multi_head_rec__par;
+mod sp_dual__pari;
+mod sp_dual__src2;
+mod sp_dual__ren;
+mod longest_capped__par;
+mod set_reach__topar;
+mod set_reach__redecl;
+mod bset__topar;
+mod opt_lat__pari;
+mod lat_two_keys__par;
+mod lat_val_bound__par;
+mod lat_input__mrt;
+mod lat_input__runpar;
+mod count_paths__mrt;
 mod count_paths__runpar;
 mod neg_basic__mrt;
-mod neg_basic__srcpar;
-mod agg_minmaxsum__par;
-mod agg_lattice__par;
-mod neg_rec_after__par;
-mod agg_empty__par;
-mod agg_empty_rel__topar;
-mod disj__pari;
-mod disj__src2;
-mod disj__permpar;
-mod pat_args__ser;
-mod rep_expr__exp;
-mod neg_in_disj__par;
-mod mac_basic__topar;
-mod mac_basic__init;
-mod mac_capture__exp;
-mod mac_gensym_disj__par;
-mod mac_disj__exppar;
-mod rnd_core_03__par;
-mod rnd_core_06__ser;
-mod rnd_core_08__pari;
-mod rnd_core_11__par;
-mod rnd_core_14__ser;
-mod rnd_core_16__pari;
-mod rnd_core_19__par;
-mod rnd_core_22__ser;
-mod rnd_core_24__pari;
-mod rnd_core_27__par;
-mod rnd_core_30__ser;
-mod rnd_agg_02__pari;
-mod rnd_agg_05__par;
-mod rnd_agg_08__ser;
-mod rnd_agg_10__pari;
-mod rnd_agg_13__par;
+mod neg_basic__runpar;
+mod agg_minmaxsum__ser;
+mod agg_lattice__ser;
+mod neg_rec_after__ser;
+mod agg_empty__ser;
+mod agg_empty_rel__to;
+mod disj__par;
+mod disj__src1;
+mod disj__perm2;
+mod disj_nested__exp;
+mod rep_expr__par;
+mod multi_head_disj__exppar;
+mod mac_basic__pari;
+mod mac_basic__src2;
+mod mac_capture__ser;
+mod mac_nested__exp;
+mod mac_disj__par;
+mod rnd_core_02__par;
+mod rnd_core_05__ser;
+mod rnd_core_07__pari;
+mod rnd_core_10__par;
+mod rnd_core_13__ser;
+mod rnd_core_15__pari;
+mod rnd_core_18__par;
+mod rnd_core_21__ser;
+mod rnd_core_23__pari;
+mod rnd_core_26__par;
+mod rnd_core_29__ser;
+mod rnd_agg_01__pari;
+mod rnd_agg_04__par;
+mod rnd_agg_07__ser;
+mod rnd_agg_09__pari;
+mod rnd_agg_12__par;
+mod rnd_agg_15__ser;
 
 fn lookup(name: &str) -> fn() -> Box<dyn Driven> {
    match name {
       "tc_left__par" => tc_left__par::make,
       "tc_left__src1" => tc_left__src1::make,
-      "tc_left__ren" => tc_left__ren::make,
-      "tc_nonlin__to" => tc_nonlin__to::make,
-      "tc_nonlin__strpar" => tc_nonlin__strpar::make,
-      "mutual__gen" => mutual__gen::make,
-      "mutual__perm1" => mutual__perm1::make,
-      "scc_chain__par" => scc_chain__par::make,
-      "scc_chain__str" => scc_chain__str::make,
-      "consts__pari" => consts__pari::make,
-      "repeated__str" => repeated__str::make,
-      "three_dyn__perm1" => three_dyn__perm1::make,
-      "four_dyn__par" => four_dyn__par::make,
-      "conds__src0" => conds__src0::make,
-      "conds__perm2" => conds__perm2::make,
-      "count_up__pari" => count_up__pari::make,
-      "multi_head__perm1" => multi_head__perm1::make,
-      "facts__mrt" => facts__mrt::make,
-      "facts__srcpar" => facts__srcpar::make,
-      "opt_cols__ser" => opt_cols__ser::make,
-      "opt_cols__src2" => opt_cols__src2::make,
-      "same_gen__ser" => same_gen__ser::make,
-      "same_gen__permpar" => same_gen__permpar::make,
-      "two_inputs__par" => two_inputs__par::make,
-      "two_inputs__src1" => two_inputs__src1::make,
-      "two_inputs__ren" => two_inputs__ren::make,
-      "ternary__ser" => ternary__ser::make,
-      "ternary__u64" => ternary__u64::make,
-      "bound_mix__permpar" => bound_mix__permpar::make,
-      "join_chain__perm2" => join_chain__perm2::make,
-      "cond_simple_join__pari" => cond_simple_join__pari::make,
-      "zero_arity__pari" => zero_arity__pari::make,
-      "lag_right__topar" => lag_right__topar::make,
-      "lag_left__ser" => lag_left__ser::make,
-      "lag_three__to" => lag_three__to::make,
-      "lag_mid__permpar" => lag_mid__permpar::make,
-      "lag_late_delta__topar" => lag_late_delta__topar::make,
-      "sp_dual__gen" => sp_dual__gen::make,
-      "sp_dual__perm1" => sp_dual__perm1::make,
-      "sp_weighted__topar" => sp_weighted__topar::make,
-      "set_reach__pari" => set_reach__pari::make,
-      "set_reach__src2" => set_reach__src2::make,
-      "bset__to" => bset__to::make,
-      "opt_lat__par" => opt_lat__par::make,
-      "lat_two_keys__ser" => lat_two_keys__ser::make,
-      "lat_val_bound__ser" => lat_val_bound__ser::make,
-      "count_paths__run" => count_paths__run::make,
+      "tc_left__perm2" => tc_left__perm2::make,
+      "tc_nonlin__pari" => tc_nonlin__pari::make,
+      "tc_nonlin__u64" => tc_nonlin__u64::make,
+      "mutual__mrt" => mutual__mrt::make,
+      "mutual__runpar" => mutual__runpar::make,
+      "mutual__strpar" => mutual__strpar::make,
+      "scc_chain__ren" => scc_chain__ren::make,
+      "consts__ser" => consts__ser::make,
+      "repeated__ren" => repeated__ren::make,
+      "three_dyn__to" => three_dyn__to::make,
+      "three_dyn__strpar" => three_dyn__strpar::make,
+      "conds__mrt" => conds__mrt::make,
+      "conds__runpar" => conds__runpar::make,
+      "expr_args__pari" => expr_args__pari::make,
+      "multi_head__pari" => multi_head__pari::make,
+      "facts__par" => facts__par::make,
+      "facts__srcto" => facts__srcto::make,
+      "facts__permpar" => facts__permpar::make,
+      "opt_cols__mrt" => opt_cols__mrt::make,
+      "opt_cols__runpar" => opt_cols__runpar::make,
+      "same_gen__to" => same_gen__to::make,
+      "same_gen__strpar" => same_gen__strpar::make,
+      "two_inputs__topar" => two_inputs__topar::make,
+      "two_inputs__redecl" => two_inputs__redecl::make,
+      "two_inputs__str" => two_inputs__str::make,
+      "ternary__pari" => ternary__pari::make,
+      "bound_mix__ser" => bound_mix__ser::make,
+      "bound_mix__u64" => bound_mix__u64::make,
+      "join_chain__permpar" => join_chain__permpar::make,
+      "reach__par" => reach__par::make,
+      "self_join3__par" => self_join3__par::make,
+      "lag_right__perm2" => lag_right__perm2::make,
+      "lag_left__pari" => lag_left__pari::make,
+      "lag_mid__ser" => lag_mid__ser::make,
+      "lag_mid__u64" => lag_mid__u64::make,
+      "multi_head_rec__par" => multi_head_rec__par::make,
+      "sp_dual__pari" => sp_dual__pari::make,
+      "sp_dual__src2" => sp_dual__src2::make,
+      "sp_dual__ren" => sp_dual__ren::make,
+      "longest_capped__par" => longest_capped__par::make,
+      "set_reach__topar" => set_reach__topar::make,
+      "set_reach__redecl" => set_reach__redecl::make,
+      "bset__topar" => bset__topar::make,
+      "opt_lat__pari" => opt_lat__pari::make,
+      "lat_two_keys__par" => lat_two_keys__par::make,
+      "lat_val_bound__par" => lat_val_bound__par::make,
+      "lat_input__mrt" => lat_input__mrt::make,
+      "lat_input__runpar" => lat_input__runpar::make,
+      "count_paths__mrt" => count_paths__mrt::make,
       "count_paths__runpar" => count_paths__runpar::make,
       "neg_basic__mrt" => neg_basic__mrt::make,
-      "neg_basic__srcpar" => neg_basic__srcpar::make,
-      "agg_minmaxsum__par" => agg_minmaxsum__par::make,
-      "agg_lattice__par" => agg_lattice__par::make,
-      "neg_rec_after__par" => neg_rec_after__par::make,
-      "agg_empty__par" => agg_empty__par::make,
-      "agg_empty_rel__topar" => agg_empty_rel__topar::make,
-      "disj__pari" => disj__pari::make,
-      "disj__src2" => disj__src2::make,
-      "disj__permpar" => disj__permpar::make,
-      "pat_args__ser" => pat_args__ser::make,
-      "rep_expr__exp" => rep_expr__exp::make,
-      "neg_in_disj__par" => neg_in_disj__par::make,
-      "mac_basic__topar" => mac_basic__topar::make,
-      "mac_basic__init" => mac_basic__init::make,
-      "mac_capture__exp" => mac_capture__exp::make,
-      "mac_gensym_disj__par" => mac_gensym_disj__par::make,
-      "mac_disj__exppar" => mac_disj__exppar::make,
-      "rnd_core_03__par" => rnd_core_03__par::make,
-      "rnd_core_06__ser" => rnd_core_06__ser::make,
-      "rnd_core_08__pari" => rnd_core_08__pari::make,
-      "rnd_core_11__par" => rnd_core_11__par::make,
-      "rnd_core_14__ser" => rnd_core_14__ser::make,
-      "rnd_core_16__pari" => rnd_core_16__pari::make,
-      "rnd_core_19__par" => rnd_core_19__par::make,
-      "rnd_core_22__ser" => rnd_core_22__ser::make,
-      "rnd_core_24__pari" => rnd_core_24__pari::make,
-      "rnd_core_27__par" => rnd_core_27__par::make,
-      "rnd_core_30__ser" => rnd_core_30__ser::make,
-      "rnd_agg_02__pari" => rnd_agg_02__pari::make,
-      "rnd_agg_05__par" => rnd_agg_05__par::make,
-      "rnd_agg_08__ser" => rnd_agg_08__ser::make,
-      "rnd_agg_10__pari" => rnd_agg_10__pari::make,
-      "rnd_agg_13__par" => rnd_agg_13__par::make,
+      "neg_basic__runpar" => neg_basic__runpar::make,
+      "agg_minmaxsum__ser" => agg_minmaxsum__ser::make,
+      "agg_lattice__ser" => agg_lattice__ser::make,
+      "neg_rec_after__ser" => neg_rec_after__ser::make,
+      "agg_empty__ser" => agg_empty__ser::make,
+      "agg_empty_rel__to" => agg_empty_rel__to::make,
+      "disj__par" => disj__par::make,
+      "disj__src1" => disj__src1::make,
+      "disj__perm2" => disj__perm2::make,
+      "disj_nested__exp" => disj_nested__exp::make,
+      "rep_expr__par" => rep_expr__par::make,
+      "multi_head_disj__exppar" => multi_head_disj__exppar::make,
+      "mac_basic__pari" => mac_basic__pari::make,
+      "mac_basic__src2" => mac_basic__src2::make,
+      "mac_capture__ser" => mac_capture__ser::make,
+      "mac_nested__exp" => mac_nested__exp::make,
+      "mac_disj__par" => mac_disj__par::make,
+      "rnd_core_02__par" => rnd_core_02__par::make,
+      "rnd_core_05__ser" => rnd_core_05__ser::make,
+      "rnd_core_07__pari" => rnd_core_07__pari::make,
+      "rnd_core_10__par" => rnd_core_10__par::make,
+      "rnd_core_13__ser" => rnd_core_13__ser::make,
+      "rnd_core_15__pari" => rnd_core_15__pari::make,
+      "rnd_core_18__par" => rnd_core_18__par::make,
+      "rnd_core_21__ser" => rnd_core_21__ser::make,
+      "rnd_core_23__pari" => rnd_core_23__pari::make,
+      "rnd_core_26__par" => rnd_core_26__par::make,
+      "rnd_core_29__ser" => rnd_core_29__ser::make,
+      "rnd_agg_01__pari" => rnd_agg_01__pari::make,
+      "rnd_agg_04__par" => rnd_agg_04__par::make,
+      "rnd_agg_07__ser" => rnd_agg_07__ser::make,
+      "rnd_agg_09__pari" => rnd_agg_09__pari::make,
+      "rnd_agg_12__par" => rnd_agg_12__par::make,
+      "rnd_agg_15__ser" => rnd_agg_15__ser::make,
       _ => panic!("no such program variant in this shard: {}", name),
    }
 }
